@@ -286,6 +286,9 @@ theorem signature.SignatureDatabase.RemoveList_new (pre rest : List SignatureLis
   rw [SignatureDatabase.RemoveList_eq, if_pos (by simp), List.erase_append_right _ h]
   simp
 
+theorem errIs_none (s : String) : errIs none s = false := by simp [errIs]
+theorem errIs_notFoundSigData : errIs (some "ErrNotFoundSigData") "ErrNotFoundSigData" = true := by decide
+
 theorem signature.SignatureDatabase.Remove.loop1_cons (t o : util.EFIGUID) (d : List UInt8)
     (pre : List SignatureList) (l : SignatureList) (rest : List SignatureList) (b : Bool) :
     SignatureDatabase.Remove.loop1 t o d pre (l :: rest) b =
@@ -308,15 +311,15 @@ theorem signature.SignatureDatabase.Remove.loop1_cons (t o : util.EFIGUID) (d : 
       by_cases hm : (⟨o, d⟩ : SignatureData) ∈ l.Signatures
       · simp only [hm, if_true]
         by_cases h1 : l.Signatures.length = 1
-        · simp [h1, NewSignatureList, lenI]
+        · simp [h1, NewSignatureList, lenI, errIs_none]
         · have hpos := List.length_pos_of_mem hm
           have hne : (lenI (l.Signatures.erase ⟨o, d⟩) == (0 : Int)) = false := by
             have : (l.Signatures.erase ⟨o, d⟩).length ≠ 0 := by
               rw [List.length_erase_of_mem hm]; omega
             rw [beq_eq_false_iff_ne, lenI]; omega
           simp only [h1, if_false, hne]
-          simp
-      · simp [hm]
+          simp [errIs_none]
+      · simp [hm, errIs_notFoundSigData]
     · simp [ht, hs]
   · simp [ht]
 
